@@ -181,7 +181,18 @@ SUMMARY.update({
  "C16-9": "local Random instance passed to the first shuffle only; the retry loop draws from the unseeded global generator (water, seed 1/64)",
  "C16-10": "lru_cache on permute_molecule (key = graph object identity + seed): permute, edit the graph, permute again returns the stale result — missed at first; the history leg `edited-argument-is-permuted-afresh` was added",
 })
-BREAKS = {"C03-12": "C15", "C04-8": "C01 C06 C07", "C02-9": "C08", "C06-9": "C07", "C06-7": "C07", "C15-8": "C08"}
+# round 9
+SUMMARY.update({
+ "C01-11": "V2000 property lines: 'if i > 0 and atom_index <= 0: continue' (meant to skip blank padding slots) drops an entry for atom 1 that is not in the first slot of its line: needs unsorted entries",
+ "C02-11": "_write_node_attributes single pass: assignment instead of append, rad overwrites mass on an atom carrying both (rediscovery of C02-2)",
+ "C06-11": "V3000 _parse_atom_attributes unrolled into guard clauses with 'break' for 'continue': an explicit CHG=0 drops a later MASS/RAD on the same atom line",
+ "C07-11": "graph_from_molecule: convert_node_labels_to_integers(ordering='sorted'): atoms renumbered by ascending file index instead of file order (non-ascending V3000 indices)",
+ "C07-12": "continuation join rstrip('-') (fifth rediscovery)",
+ "C08-11": "supersede reset folded into the merge pass under an elif: an atom named in some property line (M  ISO, explicit zero) keeps its stale atom-block charge code although M  CHG/RAD lines are present",
+ "C15-11": "refinement loop with a 'safety' bound n_atoms - n_initial_partitions that forgets the final confirming round: AssertionError for hydrogen-free F-C-C-C-C (every atom ends alone, one split per round)",
+})
+
+BREAKS = {"C03-12": "C15", "C01-11": "C08", "C04-8": "C01 C06 C07", "C02-9": "C08", "C06-9": "C07", "C06-7": "C07", "C15-8": "C08"}
 
 
 def main():
